@@ -195,15 +195,24 @@ def _fromspec_chunk(args):
     from dep_logic.markers.single import MarkerExpression
     from dep_logic.specifiers import RangeSpecifier
     fails, n = [], 0
+    from dep_logic.specifiers import parse_version_specifier
     for st in states:
         it = st["item"]
-        r = it["r"]
-        lo = Version(rel_text(r["lo"][0]["rel"])) if r["lo"] else None
-        hi = Version(rel_text(r["hi"][0]["rel"])) if r["hi"] else None
-        spec = RangeSpecifier(min=lo, max=hi, include_min=bool(r["li"]), include_max=bool(r["ui"]))
         name = it["name"]
-        shape = ("eq" if lo is not None and lo == hi else "two-sided" if lo is not None and hi is not None else "one-sided")
-        ctx = {"name": name, "spec": {"lo": str(lo), "hi": str(hi), "li": r["li"], "ui": r["ui"]}}
+        if it["k"] == "fromclause":
+            cl = it["cl"]
+            op, lit = cl["op"], rel_text(cl["v"]["rel"])
+            text = f"{op[:2]}{lit}.*" if op in ("==*", "!=*") else f"{op}{lit}"
+            spec = parse_version_specifier(text)
+            shape = f"parsed {op}"
+            ctx = {"name": name, "spec": text}
+        else:
+            r = it["r"]
+            lo = Version(rel_text(r["lo"][0]["rel"])) if r["lo"] else None
+            hi = Version(rel_text(r["hi"][0]["rel"])) if r["hi"] else None
+            spec = RangeSpecifier(min=lo, max=hi, include_min=bool(r["li"]), include_max=bool(r["ui"]))
+            shape = ("eq" if lo is not None and lo == hi else "two-sided" if lo is not None and hi is not None else "one-sided")
+            ctx = {"name": name, "spec": {"lo": str(lo), "hi": str(hi), "li": r["li"], "ui": r["ui"]}}
         try:
             m = MarkerExpression.from_specifier(name, spec)
         except Exception as e:  # noqa: BLE001
